@@ -54,10 +54,13 @@ def tuples (lo hi : List Int) : List Pos := box lo hi
 def digest (lines : List String) : String :=
   "D " ++ hex64 (lines.foldl fnv fnvInit)
 
-def offLine (d p : List Int) : String :=
-  s!"off={offset p d} in={b01 (inRangeDim d p)} cont={contents d}"
+/-- `u`: `std::size_t` arithmetic (modulo 2^64); `s`: `long`, exercised without overflow only -/
+def offLine (t : String) (d p : List Int) : String :=
+  if t == "u" then s!"off={offsetW 64 p d} in={b01 (inRangeDim d p)} cont={contentsW 64 d}"
+  else s!"off={offset p d} in={b01 (inRangeDim d p)} cont={contents d}"
 
-def nextLine (cur mn sp : Pos) : String := s!"next={il (next cur mn sp)}"
+/-- the single-step op runs the literal fold (`nextFold`); the iterator loop of `posRange` runs `next` -/
+def nextLine (cur mn sp : Pos) : String := s!"next={il (nextFold cur mn sp)}"
 
 def rangeLine (mn sp : Pos) : String :=
   let hd := s!"mls={b01 (minLessSup mn sp)} dim={il (rangeDim mn sp)} size={rangeSize mn sp} end={il (endPos mn sp)}"
@@ -75,7 +78,8 @@ def refsubLine (d : List Int) (k : Int) (smin ssup : Pos) : String :=
     let mn := clampedMin smin
     exc (clampedSupSigned ssup d) fun sp =>
       exc (g.posRefRange mn sp) fun l =>
-        s!"mn={il mn} sp={il sp} size={rangeSize mn sp} n={l.length} ref={refStr l}"
+        exc (g.fillRange mn sp (enc 5)) fun g2 =>
+          s!"mn={il mn} sp={il sp} size={rangeSize mn sp} n={l.length} ref={refStr l} w={il g2.cells}"
 
 def clampLine (d : List Int) (p : Pos) : String :=
   exc (clampedSupSigned p d) fun css =>
@@ -100,14 +104,14 @@ def handle (toks : List String) : String :=
   match toks with
   | ["off", t, d, p] =>
     match L d, L p with
-    | some d, some p => if okDims [d, p] && okT t [d, p] then offLine d p else "bad-op"
+    | some d, some p => if okDims [d, p] && okT t [d, p] then offLine t d p else "bad-op"
     | _, _ => "bad-op"
   | ["offs", t, d, m] =>
     match L d, I m with
     | some d, some m =>
       if okDims [d] && okT t [d] && 0 ≤ m && (t == "u" || t == "s") then
         let lo := d.map fun _ => if t == "u" then 0 else -m
-        digest ((tuples lo (d.map (· + m))).map (offLine d))
+        digest ((tuples lo (d.map (· + m))).map (offLine t d))
       else "bad-op"
     | _, _ => "bad-op"
   | ["next", t, c, mn, sp] =>
